@@ -14,7 +14,7 @@ ID = 'C03'
 LEVEL = 'exploration'
 DECIDING = 'posterior_rows_reevaluated'
 CHUNK = {'quick': 1, 'thorough': 2}
-TIMEOUT = 1500
+TIMEOUT = {'quick': 600, 'thorough': 1500}
 FAMILIES = ['gauss', 'mixture', 'funnel', 'periodic', 'corr', 'ring', 'plateau']
 N_BATCH = [1, 2, 3, 100, 16, 1, 50, 3, 100]
 RULE = ('case = one seeded Sampler over the cross product {scalar, vectorised} x prior {function, in-place function, '
